@@ -84,8 +84,8 @@ theorem decodeSet_skips (addr : Bytes) (fuel : Nat) (st : St) (sid : Nat) (body 
     simp only [skipErr, if_neg hbig, Bool.false_eq_true, if_false]
     exact skipRest_body _ body rest _ cache recs _ rfl hlen rfl
 
-theorem dataLen_total (specLen ty : Nat) (r : Rd) (res : Except Err Nat) (r' : Rd)
-    (h : dataLen r specLen ty = (res, r')) :
+theorem dataLen_total (specLen : Nat) (r : Rd) (res : Except Err Nat) (r' : Rd)
+    (h : dataLen r specLen = (res, r')) :
     r'.cnt + r'.rem.length = r.cnt + r.rem.length ∧ r.cnt ≤ r'.cnt := by
   simp only [dataLen] at h
   split at h
@@ -113,9 +113,9 @@ theorem decFields_total (fs : List Spec) : ∀ (acc : Record) (r : Rd) (res : Ex
     split at h
     · simp only [Prod.mk.injEq] at h; rw [← h.2]; omega
     · rename_i fid ty hk
-      generalize hp : dataLen r x.len ty = p at h
+      generalize hp : dataLen r x.len = p at h
       obtain ⟨res0, r1⟩ := p
-      have t1 := dataLen_total _ _ _ _ _ hp
+      have t1 := dataLen_total _ _ _ _ hp
       cases res0 with
       | error e => simp only [Prod.mk.injEq] at h; rw [← h.2]; exact t1
       | ok n =>
